@@ -24,28 +24,6 @@ import (
 	proto "github.com/liftbridge-io/liftbridge/server/protocol"
 )
 
-type v12State struct {
-	Gs    map[string]v12Group `json:"gs"`
-	Pend  map[string][]v12SD  `json:"pend"`
-	Parts map[string]int32    `json:"parts"`
-	Idx   uint64              `json:"idx"`
-}
-
-type v12Obs struct {
-	A   string      `json:"a"`
-	Srv string      `json:"srv"`
-	Err string      `json:"err"`
-	Ret interface{} `json:"ret"`
-}
-
-type v12Event struct {
-	T    int                    `json:"t"`
-	A    string                 `json:"a"`
-	Args map[string]interface{} `json:"args"`
-	St   v12State               `json:"st"`
-	Obs  v12Obs                 `json:"obs"`
-}
-
 type v12Run struct {
 	servers []string
 	streams []string
@@ -260,6 +238,7 @@ func (r *v12Run) close() {
 }
 
 func TestVerifGroupsDirect(t *testing.T) {
+	vFSelectIO("DIRECT")
 	sf := vLoadStimuli(t)
 	tw := vOpenTrace(t)
 	defer tw.Close()
